@@ -487,9 +487,16 @@ func main() {
 		"coverage": cov, "assumptions": merged.Assumptions, "wall_s": wall, "violations": newViol,
 	}
 	eb, _ := json.MarshalIndent(ev, "", " ")
-	os.MkdirAll(filepath.Join(root, "evidence"), 0o755)
+	// a run against replaced repository files (VERIF_EXTRA_OVERLAY: mutation demos,
+	// seeded changes, candidate fixes) says nothing about /repo's tree: its
+	// evidence goes to the scratch directory, evidence/ only ever describes /repo
+	evDir := filepath.Join(root, "evidence")
+	if os.Getenv("VERIF_EXTRA_OVERLAY") != "" {
+		evDir = filepath.Join(root, ".build", "evidence-overlay")
+	}
+	os.MkdirAll(evDir, 0o755)
 	if !infra || newViol > 0 {
-		os.WriteFile(filepath.Join(root, "evidence", id+".json"), eb, 0o644)
+		os.WriteFile(filepath.Join(evDir, id+".json"), eb, 0o644)
 	}
 	fmt.Printf("check %s tier=%s shards=%d evaluations=%d distinct=%d states=%d transitions=%d exhaustive=%v caps=%v known=%d new_violations=%d wall=%.1fs\n",
 		id, tier, nsh, merged.Evaluations, len(distinct), merged.States, merged.Transitions, merged.Exhaustive, merged.Caps, knownSeen, newViol, wall)
